@@ -161,9 +161,10 @@ def c12(G, n=4):
         exp = {w for w in L if len(w) <= k}
         if sorted(got) != sorted(exp):
             fails.append(fail('C12.get_words', f'n={k}: yielded {fmt(got)[:6]} expected {fmt(exp)[:6]}' + (' (duplicates)' if len(got) != len(set(got)) else ''))); break
-    if S.is_finite(G):
-        big = S.lang(G, 8)
-        if all(len(w) < 8 for w in big):
+    longest = S.max_word_length(G)                   # exact length of the longest word of a finite non-empty language
+    if S.is_finite(G) and (longest is None or longest <= 9):
+        big = S.lang(G, longest if longest is not None else 0)
+        if True:
             ok, got = guarded('C12.get_words.unbounded', lambda: words(None), fails)
             if ok and sorted(got) != sorted(big): fails.append(fail('C12.get_words.unbounded', f'yielded {fmt(got)[:6]} expected {fmt(big)[:6]}'))
     return fails
